@@ -65,6 +65,29 @@ let s_elem (e : elem) = string_of_z e.eid ^ ":" ^ string_of_z e.eval
 let s_pe ((p, e) : z * elem) = string_of_z p ^ "@" ^ s_elem e
 let s_list f l = if l = [] then "-" else String.concat "," (List.map f l)
 
+(* long lists are printed as #<len>:<h1>.<h2>, exactly as the harness does *)
+let digest_from = 300
+(* element type of the current case: the harness prints u8 as 0:val and the zero-sized type as 0:0 *)
+let elem_kind = ref "E"
+let s_elem_norm (e : elem) =
+  match !elem_kind with
+  | "u8" -> "0:" ^ string_of_z e.eval
+  | "Z" -> "0:0"
+  | _ -> s_elem e
+let s_contents (l : elem list) : string =
+  let n = List.length l in
+  if n < digest_from then s_list s_elem l
+  else begin
+    let h1 = ref 7 and h2 = ref 11 in
+    List.iter (fun e ->
+        String.iter (fun c ->
+            h1 := (!h1 * 1000003 + Char.code c) mod 2147483647;
+            h2 := (!h2 * 998244353 + Char.code c + 1) mod 2147483629) (s_elem_norm e);
+        h1 := (!h1 * 1000003 + 44) mod 2147483647;
+        h2 := (!h2 * 998244353 + 45) mod 2147483629) l;
+    Printf.sprintf "#%d:%d.%d" n !h1 !h2
+  end
+
 let s_kind = function
   | PAssert -> "assert" | PDebugAssert -> "dassert" | POverflow -> "overflow"
   | PDivZero -> "divzero" | PBounds -> "bounds" | PExpect -> "expect"
@@ -285,7 +308,7 @@ let kv (line : string) : (string * string) list =
       | None -> None) (String.split_on_char ' ' line)
 
 let contents_line (s : cbuf) =
-  "st=" ^ string_of_z s.start ^ " sz=" ^ string_of_z s.size ^ " c=" ^ s_list s_elem (abs s)
+  "st=" ^ string_of_z s.start ^ " sz=" ^ string_of_z s.size ^ " c=" ^ s_contents (abs s)
 
 let () =
   let ic = if Array.length Sys.argv > 1 then open_in Sys.argv.(1) else stdin in
@@ -302,13 +325,19 @@ let () =
          let g key = List.assoc key f in
          let n = z_of_string (g "N") in
          let st = z_of_string (g "start") in
-         let vals = split ',' (g "vals") in
+         let vals =
+           let v = g "vals" in
+           if String.length v > 0 && v.[0] = '@' then
+             (* shorthand for the default contents 10, 20, ..., 10k *)
+             List.init (int_of_string (String.sub v 1 (String.length v - 1))) (fun i -> string_of_int (10 * (i + 1)))
+           else split ',' v in
          let els = List.mapi (fun i v -> { eid = z_of_int (i + 1); eval = z_of_string v }) vals in
          let b = mk_buf n st els (int_of_string (g "junk")) in
          let w = { dbg = (g "dbg" = "1"); next_id = z_of_string (g "nid");
                    log = []; fault = p_fault (g "fault") } in
          cur := Some (b, w);
          unst := (try g "unst" = "1" with Not_found -> false);
+         elem_kind := (try g "elem" with Not_found -> "E");
          k := 0;
          output_string oc (line ^ "\n");
          output_string oc ("init " ^ contents_line b ^ "\n")
@@ -330,7 +359,7 @@ let () =
             | SRet r ->
               output_string oc
                 (Printf.sprintf "s k=%d r=%s c=%s e=%s\n" !k (s_out r.sr_out)
-                   (s_list s_elem r.sr_list) (s_list s_event r.sr_evs))
+                   (s_contents r.sr_list) (s_list s_event r.sr_evs))
             | SPanic -> output_string oc (Printf.sprintf "s k=%d r=panic\n" !k));
            (* model *)
            (* the nightly `unstable` build is compared with the model of the unstable bodies *)
